@@ -226,8 +226,33 @@ def gen_cases(ctx):
     return cases, nex, nfam
 
 
+def translate_and_prove(ctx, groups):
+    """T1 + proof obligations: regenerate the translator groups from the working tree, then re-check the theorems (which
+    include `model = generated definition`).  A group that no longer translates, or a theorem that no longer checks against
+    the regenerated definitions, is a broken tie.  coq/Gen is shared by all checks: if another process regenerated the group
+    from another tree while the theorems were being checked, the step is repeated."""
+    sys.path.insert(0, os.path.join(vlib.TOOLS, "c2g"))
+    import genall
+    r = None
+    for attempt in range(3):
+        st = genall.run(list(groups))
+        nb, ob, di = len(ctx.broken), ctx.cov["obligations"], ctx.cov["discharged"]
+        for g, s_ in st.items():
+            ctx.log("c2g", g, s_)
+            if s_.startswith("FAILED"):
+                ctx.tie_broken("translator group " + g, s_)
+        r = ctx.props()
+        st2 = genall.run(list(groups))
+        if not any("(changed)" in v for v in st2.values()):
+            return r
+        ctx.log("coq/Gen was regenerated by another process during the proof step: repeating")
+        del ctx.broken[nb:]
+        ctx.cov["obligations"], ctx.cov["discharged"] = ob, di
+    return r
+
+
 def run(ctx):
-    ctx.props()
+    translate_and_prove(ctx, ["RangesC15"])
     harness = os.path.join(vlib.TOOLS, "harness", "c15_harness.c")
     env = dict(os.environ, ASAN_OPTIONS="detect_leaks=0")
     v = ctx.variant(mpi="off", san=True)
@@ -435,7 +460,9 @@ def run(ctx):
     ctx.notes["model_disagreements"] = ndis
     for c in (cases[100], cases[nex + 5], cases[-1]):
         ctx.sample({"case": c[2][:200]})
-    ctx.cov["trusted_base"] = ["hand-written model coq/C15/RangesModel.v (tied only by this correspondence run; no T1 part: the code writes arrays, which c2g does not translate)",
+    ctx.cov["trusted_base"] = ["hand-written model coq/C15/RangesModel.v: its loop structure is tied by this correspondence run; T1: its integer decisions (unused constants, peer / gap tests, claimed range, "
+                               "the scan for the shortest slot and the eviction, the inversion step, the receiver / sender membership tests of decode) are proved EQUAL to Gen/RangesC15.v, regenerated "
+                               "from the working tree on every run (tools/c2g + tools/c2g/slicelib.py + clang-14 JSON AST trusted; ranges[2 * x] / ranges[2 * x + 1] are translated as the locations lo_x / hi_x)",
                                "insertion sort stands for qsort: the keys (starts of the empty ranges) are pairwise different, so the sorted result is unique",
                                "tools/simmpi and OpenMPI: MPI_Allreduce (MAX) / MPI_Allgather return their specified values on every rank"]
     ctx.assumptions += ["first_peer / last_peer are the smallest / largest peer, or (num_procs, -1) without peers (asserted by the debug build, computed like sc_notify.c does)",
